@@ -1,4 +1,9 @@
-"""C07 — Montgomery modular arithmetic equals ordinary arithmetic modulo n."""
+"""C07 — Montgomery modular arithmetic equals ordinary arithmetic modulo n.
+
+64-bit routines (mg_*), the multiword ring ZmodN and the private 128-bit type M128.
+Request lines: see lean/Ymq/Drv/Mg64.lean and lean/Ymq/Drv/ZmodN.lean.
+"""
+import math
 from vlib.pipeline import Case
 from vlib import gen
 
@@ -6,23 +11,317 @@ PID = "C07"
 GEN = []
 LEAN = ["Ymq.Props.C07"]
 AUDIT = "Ymq.Audit.C07"
-THEOREMS = ["Ymq.C07.mgRedc_spec", "Ymq.C07.mgMul_spec"]
+THEOREMS = ["Ymq.C07." + t for t in (
+    "mgRedc_spec mgMul_spec new_spec mulmod_spec mintMulmod_spec mulmod_overflow_carry_zero "
+    "add_spec sub_spec add_spec_partial sub_spec_partial add_512bit_counterexample "
+    "redc_spec redc_spec_partial from_int_spec to_int_spec from_to_int redc_large_spec inv_spec gcd_spec "
+    "M128_mul_spec M128_add_sub_spec M128_eq_ZmodN M128_inv2adic_spec_partial "
+    "M128_inv2adic_overflow_witness").split()]
+HYPOTHESES = ["inv_mod_spec (theorem inv_spec): arith_gcd::inv_mod(a, n) returns the inverse i < n of a modulo n, "
+              "or fails only when gcd(a, n) != 1 (this is property C09; ZmodN::inv/gcd are thin wrappers around arith_gcd)"]
 PROFILES = ["release", "chk"]
 W = 1 << 64
-RULE = ("structured moduli (2^64-s, 2^63+s, all-ones, single-bit, random) x operands (0,1,n-1,n/2,near n,random); "
-        "non-trivial = request whose operands are not all in {0,1}; distinct by request line")
-MODELLED = ["arith_montgomery::{mg_2adic_inv, mg_redc, mg_mul} word-exact (Ymq/Model/Mg64.lean)"]
-UNMODELLED = ["u128 arithmetic of rustc/LLVM is taken to be arithmetic mod 2^128"]
+M64 = W - 1
+RULE = ("moduli: k = 1..8 words x styles {2^B-s, 2^(B-1)+s, all-ones, 2^j+1, single-bit words, random, mixed patterns, small top word}, "
+        "B = min(64k, 500); a separate band of 501..512-bit moduli (oracle off, model compared); operands {0, 1, n-1, n/2, near n, random, "
+        "near-n pairs that force the overflow path of _mint_mulmod}; redc inputs x < n*R random / maximal / with all-ones words above the "
+        "current row (family of the old carry defect); non-trivial = some operand outside {0,1}; distinct by request line")
+MODELLED = [
+    "arith_montgomery::{mg_2adic_inv, mg_redc, mg_mul} word-exact (Ymq/Model/Mg64.lean)",
+    "arith_montgomery::ZmodN::{new, from_int, to_int, mul, add, sub, redc, redc_large, inv, gcd}, mint_lt, mint_add, mint_sub, "
+    "mint_mulmod/_mint_mulmod word-exact incl. every debug_assert/assert/overflow/index panic site (Ymq/Model/ZmodN.lean on the "
+    "shared limb library Ymq/Model/Limbs.lean); the arrays z (mulmod) and m (redc) are modelled by their live window",
+    "ecm128::M128::{inv_2adic, r_r2, add, sub, mul, mul256} as u128 arithmetic with explicit wrap/overflow (Ymq/Model/M128.lean)",
+]
+UNMODELLED = [
+    "u128 arithmetic of rustc/LLVM is taken to be arithmetic mod 2^128",
+    "bnum U1024 operators used by ZmodN (%, *, <<, <, bits, digits, from_digits, casts) are modelled as the mathematical Nat operations, not verified",
+    "arith_gcd::inv_mod / big_gcd (property C09) are a parameter of the model of ZmodN::inv (theorem hypothesis inv_mod_spec) and Nat.gcd "
+    "for ZmodN::gcd; the driver instantiates them with a reference extended Euclid, so zn_inv/zn_gcd lines check the wrapper only",
+    "memory safety of get_unchecked: the model indexes the same words but does not model undefined behaviour",
+    "M128::inv_2adic: only soundness of a returned value is proved (totality is false in the checked profile, see the witness theorem); "
+    "M128::r_r2 is compared (K) and oracle-checked (O) but has no theorem",
+]
 
 
-def ninv_of(n):
-    return (-pow(n, -1, W)) % W
+# ---------------------------------------------------------------- plain-integer reference
+
+def ninv_of(n, bits=64):
+    return (-pow(n, -1, 1 << bits)) % (1 << bits)
 
 
-def cases(tier, rng, extended=False):
-    N = 4000 if tier == "quick" else 200000
-    if extended:
-        N *= 10
+def nwords(n):
+    return max(1, (n.bit_length() + 63) // 64)
+
+
+def cios(n, k, x, y):
+    """value of the z window of _mint_mulmod after the k rows (Nat recurrence, for classification only)"""
+    ninv = ninv_of(n)
+    a = 0
+    for i in range(k):
+        t = a + ((x >> (64 * i)) & M64) * y
+        m = (t & M64) * ninv & M64
+        a = (t + m * n) >> 64
+    return a
+
+
+def redc_trace(n, k, x):
+    """word-level walk of ZmodN::redc: returns (number of rows whose carry rippled through at least one
+    all-ones word, carry left the array?)"""
+    ninv = ninv_of(n)
+    m = [(x >> (64 * i)) & M64 for i in range(16)]
+    nd = [(n >> (64 * i)) & M64 for i in range(k)]
+    ripples = 0
+    for i in range(k):
+        mn = m[i] * ninv & M64
+        c = 0
+        for j in range(k):
+            t = mn * nd[j] + m[i + j] + c
+            m[i + j] = t & M64
+            c = t >> 64
+        t = m[i + k] + c
+        m[i + k] = t & M64
+        c = t >> 64
+        idx = i + k + 1
+        steps = 0
+        while c:
+            if idx >= 16:
+                return ripples, True
+            t = m[idx] + 1
+            m[idx] = t & M64
+            c = t >> 64
+            idx += 1
+            steps += 1
+        if steps >= 2:
+            ripples += 1
+    return ripples, False
+
+
+# ---------------------------------------------------------------- generators
+
+SMALL = [1, 3, 5, 7, 9, 15, 17, 59, 189, 255, 257, 65537]
+
+
+def modulus(rng, k, band=False):
+    """odd modulus with exactly k words; at most 500 bits unless band (501..512 bits, k = 8)"""
+    top = 512 if band else min(64 * k, 500)
+    low = 501 if band else 64 * (k - 1) + 1          # minimal bit length
+    if k == 1:
+        low = 2
+    style = rng.choice(["top-minus", "half-plus", "ones", "pow2+1", "bitwords", "rand", "mixed", "small-top"])
+    s = rng.choice(SMALL + [rng.getrandbits(20) | 1])
+    if style == "top-minus":
+        n = (1 << top) - s
+    elif style == "half-plus":
+        n = (1 << (top - 1)) + s
+    elif style == "ones":
+        n = (1 << rng.randrange(max(low, top - 3), top + 1)) - 1
+    elif style == "pow2+1":
+        n = (1 << rng.randrange(low - 1 if low > 2 else 1, top)) + 1
+    elif style == "bitwords":
+        n = sum(1 << (64 * i + rng.randrange(64)) for i in range(k - 1)) | (1 << rng.randrange(low - 1, top)) | 1
+    elif style == "rand":
+        b = rng.randrange(low, top + 1)
+        n = rng.getrandbits(b) | (1 << (b - 1)) | 1
+    elif style == "mixed":
+        n = gen.rand_words(rng, k, "mixed") & ((1 << top) - 1)
+        n |= (1 << rng.randrange(low - 1, top)) | 1
+    else:
+        b = rng.randrange(low, min(top, low + 8) + 1)
+        n = rng.getrandbits(b) | (1 << (b - 1)) | 1
+    n |= 1
+    if n < 3:
+        n = 3
+    assert n % 2 == 1 and nwords(n) == k and n.bit_length() <= top, (style, k, n)
+    return n
+
+
+def residue(rng, n):
+    c = rng.randrange(10)
+    if c == 0:
+        return 0
+    if c == 1:
+        return 1 % n
+    if c == 2:
+        return n - 1
+    if c == 3:
+        return n // 2
+    if c in (4, 5):
+        return (n - 1 - rng.getrandbits(rng.choice([3, 8, 70]))) % n
+    if c == 6:
+        return gen.rand_words(rng, nwords(n)) % n
+    return rng.randrange(n)
+
+
+def redc_input(rng, n, k):
+    R = 1 << (64 * k)
+    c = rng.randrange(8)
+    if c == 0:
+        return rng.randrange(n * R)
+    if c == 1:
+        return n * R - 1 - rng.getrandbits(rng.choice([1, 64, 64 * k]))
+    if c == 2:
+        return rng.getrandbits(64 * k)                       # to_int shape
+    if c == 3:
+        return residue(rng, n) * R + rng.choice([0, 1, R - 1, rng.getrandbits(64 * k)])
+    # all-ones words above the rows: high part close to n (n = 2^(64k) - s has all-ones words), or explicit ones
+    hi = (n - 1 - rng.getrandbits(rng.choice([0, 1, 8, 64]))) % n
+    ones = ((1 << (64 * rng.randrange(1, k + 1))) - 1) << (64 * rng.randrange(0, k))
+    hi2 = (hi | ones)
+    if hi2 < n:
+        hi = hi2
+    lo = rng.choice([R - 1, rng.getrandbits(64 * k), gen.rand_words(rng, k, "mixed")])
+    return hi * R + lo
+
+
+def words_of(x, length):
+    return ",".join(str((x >> (64 * i)) & M64) for i in range(length)) if length else "-"
+
+
+def zn_cases(rng, n, k, band, count):
+    """count request lines for one modulus"""
+    R = 1 << (64 * k)
+    chk_only = ["chk"] if band else None      # ops whose release/chk behaviour differs for 512-bit moduli
+    o = not band
+    out = []
+    for _ in range(count):
+        c = rng.randrange(20)
+        x, y = residue(rng, n), residue(rng, n)
+        if c < 6:
+            if rng.randrange(3) == 0:
+                # both operands close to n: with n close to R this is the overflow path of _mint_mulmod
+                x = (n - 1 - rng.getrandbits(rng.choice([1, 4, 32]))) % n
+                y = (n - 1 - rng.getrandbits(rng.choice([1, 4, 32]))) % n
+            out.append(Case(f"zn_mul {n} {x} {y}", o=o))
+            if c == 0:
+                out.append(Case(f"zn_mulmod {n} {x} {y}", o=o))
+        elif c < 8:
+            out.append(Case(f"zn_add {n} {x} {y}", o=o, profiles=chk_only))
+        elif c < 10:
+            out.append(Case(f"zn_sub {n} {x} {y}", o=o, profiles=chk_only))
+        elif c < 14:
+            out.append(Case(f"zn_redc {n} {redc_input(rng, n, k)}", o=o))
+        elif c == 14:
+            hi = redc_input(rng, n, k)
+            if k == 8:
+                hi >>= 64 * rng.randrange(1, 4)            # keep the slice below 24 words
+            lo = rng.choice([R - 1, 0, rng.getrandbits(64 * k)])
+            xx = hi * R + lo
+            need = max(k, (xx.bit_length() + 63) // 64)
+            length = rng.randrange(need, min(k + 16, 23) + 1) if need <= min(k + 16, 23) else need
+            out.append(Case(f"zn_redc_large {n} {words_of(xx, length)}", o=o, profiles=chk_only))
+        elif c == 15:
+            out.append(Case(f"zn_from_int {n} {x}", o=o))
+        elif c == 16:
+            out.append(Case(f"zn_to_int {n} {x}", o=o))
+        elif c == 17:
+            out.append(Case(f"zn_from_to {n} {x}", o=o))
+        elif c == 18:
+            if not band and n.bit_length() <= 500:
+                if rng.randrange(3) == 0 and n > 15:
+                    # operand sharing a factor with n when n has a small factor, else random
+                    for p in (3, 5, 7, 11, 13):
+                        if n % p == 0:
+                            x = (x - x % p) % n
+                            break
+                out.append(Case(f"zn_inv {n} {x}", o=o))
+                out.append(Case(f"zn_gcd {n} {x}", o=o))
+        else:
+            out.append(Case(f"zn_new {n}", o=o))
+    return out
+
+
+def m128_cases(rng, count):
+    out = []
+    for _ in range(count):
+        k = rng.choice([1, 2, 2, 2])
+        n = modulus(rng, k)
+        R = 1 << (64 * k)
+        ninv = ninv_of(n, 64 * k)
+        x, y = residue(rng, n), residue(rng, n)
+        c = rng.randrange(8)
+        if c == 0:
+            out.append(Case(f"m128_inv_2adic {n}"))
+        elif c == 1:
+            out.append(Case(f"m128_r_r2 {n} {ninv}"))
+        elif c == 2:
+            out.append(Case(f"m128_add {n} {x} {y}"))
+            out.append(Case(f"zn_add {n} {x} {y}"))
+        elif c == 3:
+            out.append(Case(f"m128_sub {n} {x} {y}"))
+            out.append(Case(f"zn_sub {n} {x} {y}"))
+        else:
+            if rng.randrange(3) == 0:
+                x = (n - 1 - rng.getrandbits(4)) % n
+                y = (n - 1 - rng.getrandbits(4)) % n
+            # same operands to the general ring: the two answers are checked against the same value
+            out.append(Case(f"m128_mul {n} {ninv} {x} {y}"))
+            out.append(Case(f"zn_mul {n} {x} {y}"))
+    return out
+
+
+def raw_cases(rng, count):
+    """the limb helpers called directly through the hook (in-domain shapes only)"""
+    out = []
+    for _ in range(count):
+        sz = rng.randrange(1, 9)
+        n = modulus(rng, sz) if sz < 8 else modulus(rng, 8, band=rng.randrange(2) == 0)
+        x, y = residue(rng, n), residue(rng, n)
+        c = rng.randrange(3)
+        if c == 0:
+            a = rng.choice([x, x + y, n, n - 1, y])
+            if a >> (64 * 8):
+                a = x
+            out.append(Case(f"mint_lt {words_of(a, 8)} {words_of(n, 16)} {sz}"))
+        elif c == 1:
+            if sz == 8 and (x + y) >> 512:
+                y = 0
+            out.append(Case(f"mint_add {words_of(x, 8)} {words_of(y, 8)} {sz}"))
+        else:
+            if x < y and sz < 8:
+                a, b = x + n, y                           # the (x + n) - y shape of ZmodN::sub
+            else:
+                a, b = max(x, y), min(x, y)
+            out.append(Case(f"mint_sub {words_of(a, 8)} {words_of(b, 8)} {sz}"))
+    return out
+
+
+def outside_domain(rng, count):
+    """inputs outside the documented domain: the model predicts the checked profile (panic sites)"""
+    out = []
+    for _ in range(count):
+        k = rng.randrange(1, 9)
+        n = modulus(rng, k)
+        R = 1 << (64 * k)
+        c = rng.randrange(8)
+        big = n + rng.getrandbits(rng.choice([1, 8, 64]))
+        if big >> 512:
+            big = n
+        if c == 0:
+            out.append(Case(f"zn_mul {n} {big} {residue(rng, n)}", o=False, profiles=["chk"]))
+        elif c == 1:
+            out.append(Case(f"zn_add {n} {residue(rng, n)} {big}", o=False, profiles=["chk"]))
+        elif c == 2:
+            out.append(Case(f"zn_sub {n} {big} {residue(rng, n)}", o=False, profiles=["chk"]))
+        elif c == 3:
+            xx = n * R + rng.getrandbits(rng.choice([1, 64, 64 * k]))
+            if xx >> 1024:
+                xx = n * R
+            out.append(Case(f"zn_redc {n} {xx}", o=False, profiles=["chk"]))
+        elif c == 4:
+            out.append(Case(f"zn_new {rng.choice([0, 2, n + 1, 1 << 512, (1 << 512) + 1, (1 << 600) + 1])}", o=False))
+        elif c == 5:
+            length = rng.choice([0, k - 1, k + 17, 23, 24, 25])
+            xx = rng.getrandbits(64 * max(length, 1))
+            out.append(Case(f"zn_redc_large {n} {words_of(xx, max(length, 0))}", o=False, profiles=["chk"]))
+        elif c == 6:
+            out.append(Case(f"zn_from_int {n} {rng.choice([n, big, (1 << 512) + 5, (1 << 1023) + 1])}", o=False, profiles=["chk"]))
+        else:
+            out.append(Case(f"zn_mulmod {n} {rng.getrandbits(512)} {residue(rng, n)}", o=False))
+    return out
+
+
+def mg64_cases(rng, N):
     for i in range(N):
         n = gen.odd_modulus(rng, 1)
         ninv = ninv_of(n)
@@ -40,32 +339,178 @@ def cases(tier, rng, extended=False):
         yield Case(f"mg_redc {n} {rng.getrandbits(64)} {rng.randrange(n * W)}", o=False, profiles=["chk"])
 
 
+def cases(tier, rng, extended=False):
+    scale = 1 if tier == "quick" else 10
+    if extended:
+        scale *= 10
+    yield from mg64_cases(rng, 4000 * scale)
+    # multiword ring: moduli x ops
+    for _ in range(700 * scale):
+        for k in range(1, 9):
+            n = modulus(rng, k)
+            yield from zn_cases(rng, n, k, False, 12)
+    for _ in range(40 * scale):
+        n = modulus(rng, 8, band=True)
+        yield from zn_cases(rng, n, 8, True, 8)
+    yield from m128_cases(rng, 2500 * scale)
+    yield from raw_cases(rng, 1500 * scale)
+    yield from outside_domain(rng, 400 * scale)
+
+
+def corpus_case(line):
+    # corpus lines are in-domain unless marked: `!chk ` prefix = checked profile only, no oracle
+    if line.startswith("!chk "):
+        return Case(line[5:], o=False, profiles=["chk"])
+    if line.startswith("!noo "):
+        return Case(line[5:], o=False)
+    return Case(line)
+
+
+# ---------------------------------------------------------------- oracle
+
+def _int(ans):
+    return int(ans) if ans.isdigit() else None
+
+
 def oracle(case, ans):
-    a = [int(x) for x in case.args]
-    if not ans.isdigit():
-        return f"no value returned ({ans})"
-    r = int(ans)
-    if case.op == "mg_2adic_inv":
-        return None if (a[0] * r + 1) % W == 0 and r < W else "n*ninv != -1 mod 2^64"
-    if case.op == "mg_redc":
-        n, _, x = a
-        return None if r < n and (r * W - x) % n == 0 else "r*2^64 != x mod n or r >= n"
-    if case.op == "mg_mul":
-        n, _, x, y = a
+    op = case.op
+    a = case.args
+    if op.startswith("mg_"):
+        v = [int(x) for x in a]
+        r = _int(ans)
+        if r is None:
+            return f"no value returned ({ans})"
+        if op == "mg_2adic_inv":
+            return None if (v[0] * r + 1) % W == 0 and r < W else "n*ninv != -1 mod 2^64"
+        if op == "mg_redc":
+            n, _, x = v
+            return None if r < n and (r * W - x) % n == 0 else "r*2^64 != x mod n or r >= n"
+        n, _, x, y = v
         return None if r < n and (r * W - x * y) % n == 0 else "r*2^64 != x*y mod n or r >= n"
+    if op.startswith("mint_"):
+        xs = [int(w) for w in a[0].split(",")]
+        ys = [int(w) for w in a[1].split(",")]
+        sz = int(a[2])
+        vx = sum(w << (64 * i) for i, w in enumerate(xs))
+        vy = sum(w << (64 * i) for i, w in enumerate(ys))
+        if op == "mint_lt":
+            return None if ans == ("true" if vx < vy else "false") else "mint_lt != (x < n)"
+        if ans in ("panic", "abort", "hang", "?"):
+            return f"no value returned ({ans})"
+        vr = sum(int(w) << (64 * i) for i, w in enumerate(ans.split(",")))
+        want = vx + vy if op == "mint_add" else vx - vy
+        return None if vr == want else f"{op}: value {vr} != {want}"
+    n = int(a[0])
+    if op.startswith("m128_"):
+        R = W if n < W else 1 << 128
+        Rinv = pow(R, -1, n)
+        if op == "m128_inv_2adic":
+            r = _int(ans)
+            if r is None:
+                return f"no value returned ({ans})"
+            return None if r < R and (n * r + 1) % R == 0 else "n*ninv != -1 mod R"
+        if op == "m128_r_r2":
+            return None if ans == f"{R % n} {R * R % n}" else "r, r2 != R mod n, R^2 mod n"
+        r = _int(ans)
+        if r is None:
+            return f"no value returned ({ans})"
+        if op == "m128_add":
+            return None if r == (int(a[1]) + int(a[2])) % n else "x+y mod n"
+        if op == "m128_sub":
+            return None if r == (int(a[1]) - int(a[2])) % n else "x-y mod n"
+        x, y = int(a[2]), int(a[3])
+        return None if r == x * y * Rinv % n else "r != x*y/R mod n"
+    # zn_*
+    k = nwords(n)
+    R = 1 << (64 * k)
+    if op == "zn_new":
+        want = f"{k} {ninv_of(n)} {R % n} {R * R % n}"
+        return None if ans == want else f"context != {want[:80]}"
+    Rinv = pow(R, -1, n)
+    if op == "zn_inv":
+        x = int(a[1])
+        if math.gcd(x, n) != 1:
+            return None if ans == "none" else "inv of a non-unit must be None"
+        want = pow(x, -1, n) * R * R % n
+        return None if ans == f"some {want}" else "inv != R^2/x mod n"
+    r = _int(ans)
+    if r is None:
+        return f"no value returned ({ans})"
+    if op == "zn_gcd":
+        return None if r == math.gcd(n, int(a[1])) else "gcd"
+    if op == "zn_mul":
+        return None if r == int(a[1]) * int(a[2]) * Rinv % n else "r != x*y/R mod n"
+    if op == "zn_mulmod":
+        return None if r < 2 * n and (r * R - int(a[1]) * int(a[2])) % n == 0 else "mulmod: r*R != x*y mod n or r >= 2n"
+    if op == "zn_add":
+        return None if r == (int(a[1]) + int(a[2])) % n else "r != x+y mod n"
+    if op == "zn_sub":
+        return None if r == (int(a[1]) - int(a[2])) % n else "r != x-y mod n"
+    if op == "zn_redc":
+        return None if r == int(a[1]) * Rinv % n else "r != x/R mod n"
+    if op == "zn_redc_large":
+        xx = sum(int(w) << (64 * i) for i, w in enumerate(a[1].split(","))) if a[1] != "-" else 0
+        return None if r == xx * Rinv % n else "r != x/R mod n"
+    if op == "zn_from_int":
+        return None if r == int(a[1]) * R % n else "r != x*R mod n"
+    if op == "zn_to_int":
+        return None if r == int(a[1]) * Rinv % n else "r != x/R mod n"
+    if op == "zn_from_to":
+        return None if r == int(a[1]) else "to_int(from_int(x)) != x"
     return "unknown op"
 
 
+# ---------------------------------------------------------------- distribution
+
 def klass(case, ans):
-    return case.op + ("/" + ans if not ans.isdigit() else "")
+    op = case.op
+    bad = "" if (ans.replace(" ", "").replace(",", "").isdigit() or ans in ("true", "false", "none") or ans.startswith("some ")) else "/" + ans
+    if op.startswith("mg_") or op.startswith("mint_"):
+        return op + bad
+    a = case.args
+    n = int(a[0])
+    if op.startswith("m128_"):
+        return f"{op}/{'R64' if n < W else 'R128'}" + bad
+    if n % 2 == 0 or n >> 512:
+        return op + "/bad-modulus" + bad
+    k = nwords(n)
+    band = "/501-512bit" if n.bit_length() > 500 else ""
+    tag = ""
+    if op in ("zn_mul", "zn_mulmod") and not bad:
+        x, y = int(a[1]), int(a[2])
+        if x < n and y < n:
+            A = cios(n, k, x, y)
+            tag = "/overflow" if A >> (64 * k) else ("/final-sub" if A >= n else "/no-sub")
+    elif op == "zn_redc" and not bad:
+        x = int(a[1])
+        if x < n << (64 * k):
+            rip, _ = redc_trace(n, k, x)
+            tag = "/carry-ripple" if rip else "/plain"
+    elif op == "zn_add" and not bad:
+        tag = "/sub" if int(a[1]) + int(a[2]) >= n else "/no-sub"
+    elif op == "zn_sub" and not bad:
+        tag = "/borrow" if int(a[1]) < int(a[2]) else "/no-borrow"
+    elif op == "zn_inv":
+        tag = "/" + ans.split(" ")[0] if not bad else ""
+    return f"{op}/k{k}{band}{tag}{bad}"
 
 
 def nontrivial(case, ans):
-    return any(int(x) > 1 for x in case.args[2:]) or case.op == "mg_2adic_inv"
+    if case.op in ("mg_2adic_inv", "zn_new", "m128_inv_2adic", "m128_r_r2"):
+        return True
+    return any(len(x) > 1 for x in case.args[1:])
 
-CLAIM = ("Lean theorems (all inputs) that the 64-bit Montgomery reduction/multiplication model never panics on its "
-         "domain and returns r < n with r*2^64 = x (mod n); the word-exact model is tied to the code by differential "
-         "runs in both build profiles; a Python big-integer oracle checks every implementation answer.")
-LEVEL_NOTE = ("Trusted: Lean kernel (+propext, Classical.choice, Quot.sound), the hand-written model's correspondence to "
-              "the Rust code (sampled by the harness, not proved), Python integers in the oracle. bnum operators are modelled as Nat arithmetic.")
+
+CLAIM = ("Lean theorems, for all inputs, about word-exact models of the 64-bit routines (mg_redc, mg_mul), of the multiword ring ZmodN "
+         "(new, mul = CIOS multiply-reduce + conditional subtraction, add, sub, redc, from_int, to_int, redc_large, inv relative to C09) and of the "
+         "128-bit type M128 (mul, add, sub, and its equality with ZmodN on 1- and 2-word moduli): on the documented domain no panic site is "
+         "reached, results are fully reduced and equal x*y/R, x+-y, x/R, x*R, x (round trip) modulo n; the res[SIZE]=1 branch of _mint_mulmod is "
+         "proved unreachable. The models are tied to the code by differential runs in the release and checked profiles; a Python big-integer "
+         "oracle checks every in-domain implementation answer.")
+LEVEL_NOTE = ("Trusted: Lean kernel (+propext, Classical.choice, Quot.sound); the hand-written models' correspondence to the Rust code (sampled by the "
+              "harness in both profiles, not proved); Python integers in the oracle. The word-level refinement is proved in full (no Nat-level "
+              "shortcut): all ZmodN theorems are about the limb-by-limb model. add/sub/redc/redc_large are proved for n < 2^511 (covers the documented "
+              "500-bit range); for 512-bit moduli add/sub are wrong/panic (theorem add_512bit_counterexample) and that band is only compared, not "
+              "oracle-checked here (it belongs to C03). bnum operators are modelled as Nat arithmetic; arith_gcd (inv_mod, big_gcd) enters as a named "
+              "hypothesis (C09). M128::inv_2adic: soundness only, totality fails in the checked profile (witness theorem); M128::r_r2 is K/O-checked only.")
 TECHNIQUE = "Lean 4 proof about a hand model + differential correspondence check + spec oracle"
